@@ -146,7 +146,7 @@ pub fn base_yaml(bits: u32, servers: u8) -> String {
     if on(F_PATHS) {
         // One path that no program has and one that collides with a program path.
         s.push_str(
-            "paths:\n  x-base-route-table:\n    hidden:\n    - /internal\n  /base/only/{id}:\n    parameters:\n    - name: id\n      in: path\n      required: true\n      schema:\n        type: string\n    get:\n      operationId: baseOp\n      responses:\n        '200':\n          description: ok\n  /objs:\n    delete:\n      operationId: baseDelete\n      responses:\n        '204':\n          description: gone\n",
+            "paths:\n  x-base-route-table:\n    hidden:\n    - /internal\n  /base/only/{id}:\n    parameters:\n    - name: id\n      in: path\n      required: true\n      schema:\n        type: string\n    get:\n      operationId: get-objs\n      responses:\n        '200':\n          description: ok\n  /objs:\n    delete:\n      operationId: get-tree\n      responses:\n        '204':\n          description: gone\n",
         );
     } else {
         s.push_str("paths: {}\n");
@@ -177,7 +177,7 @@ pub fn base_yaml(bits: u32, servers: u8) -> String {
         s.push_str("  requestBodies:\n    ObjBody:\n      description: an object\n      content:\n        application/json:\n          schema:\n            type: object\n      required: true\n");
     }
     if on(F_LINKS) {
-        s.push_str("  links:\n    next:\n      description: next one\n      operationId: baseOp\n      parameters:\n        id: $response.body#/id\n");
+        s.push_str("  links:\n    next:\n      description: next one\n      operationId: get-objs\n      parameters:\n        id: $response.body#/id\n");
     }
     s
 }
